@@ -36,3 +36,6 @@ Definition v_fix_range (n x : Z) (b : bool) (out : result Z) : Z :=
   if result_eqb Z.eqb (fix_range n x b) out then 0 else 1.
 Definition v_rows2read (n : Z) (r : rowsel) (out : result (option (list Z))) : Z :=
   if result_eqb (option_eqb zlist_eqb) (rows2read_of n r) out then 0 else 1.
+
+(* a sequence of calls made in one process: every call is judged on its own; the verdict bits are or-ed *)
+Definition v_seq (l : list Z) : Z := fold_right Z.lor 0 l.
